@@ -45,6 +45,11 @@ def unitsIn (w : World) (es : List Sexp) : Except Sexp (Nat × Registry × List 
   | some reg => pure (ri, reg, cs)
   | none => throw (.atom "bad-store")
 
+/-- number of distinct shortest rule paths (reported so that the harness can recognise the one situation the model
+    leaves open); with fewer than two rules there is at most one -/
+def pathCount (reg : Registry) (rules : List Rule) (a b : Container) : Nat :=
+  if rules.length < 2 then 1 else shortestCount rules (dimsOf reg a) (dimsOf reg b)
+
 def mag? : Sexp → Option Mag
   | .list [.atom "num", t] => do
       let s ← atomOf? t
@@ -87,7 +92,7 @@ def step (st : State) : Sexp → State × Sexp
       | .error e => (st, e)
       | .ok (ri, reg, [ca, cb]) =>
           let rules := st.rulesOf ri
-          let n := shortestCount rules (dimsOf reg ca) (dimsOf reg cb)
+          let n := pathCount reg rules ca cb
           match conversionFactorR reg rules ca cb with
           | .ok none => (st, .list [.atom "ok", .atom "one", .list [.atom "paths", ofNat n]])
           | .ok (some (f, y)) => (st, ofResult f y n)
@@ -98,7 +103,7 @@ def step (st : State) : Sexp → State × Sexp
       | .error e => (st, e)
       | .ok (ri, reg, [ca, cb]) =>
           let rules := st.rulesOf ri
-          let n := shortestCount rules (dimsOf reg ca) (dimsOf reg cb)
+          let n := pathCount reg rules ca cb
           match convertQ reg rules ca cb with
           | .ok (f, y) => (st, ofResult f y n)
           | .error e => (st, uerr e)
@@ -111,7 +116,7 @@ def step (st : State) : Sexp → State × Sexp
           let d : Dir := if dir == "input" then .input else .output
           let k : VarKind := if kind == "defined" then .defined else if kind == "state" then .state
                              else if kind == "free" then .free else .plain
-          let n := shortestCount rules (dimsOf reg ca) (dimsOf reg cb)
+          let n := pathCount reg rules ca cb
           match convertVariable reg rules ca cb d k (atomOf? hasInit == some "true") ((nat? nOdes).getD 0) with
           | .same => (st, .list [.atom "same"])
           | .converted (f, y) initScaled eqs =>
